@@ -247,7 +247,7 @@ def random_case(draw):
 
 def SHARDS(tier):
     k = 1 if tier == "quick" else 2
-    sh = [{"part": "enum", "index": i, "preemptions": k} for i in range(len(CATALOGUE))]
+    sh = [{"part": "enum", "cat": i, "preemptions": k} for i in range(len(CATALOGUE))]
     sh += [{"part": "random"} for _ in range(4 if tier == "quick" else 8)]
     return sh
 
@@ -255,7 +255,7 @@ def SHARDS(tier):
 def run(ctx):
     sh = ctx.shard
     if sh.get("part") == "enum":
-        initial, opset = CATALOGUE[sh["index"] % len(CATALOGUE)]
+        initial, opset = CATALOGUE[sh["cat"]]
         opset_l = [[list(o) for o in ops] for ops in opset]
 
         def run_with(preempt):
